@@ -495,6 +495,13 @@ where
 }
 
 fn split_case(c: &SplitCase) -> Result<bool, String> {
+    fn fmt(p: *const ()) -> String {
+        format!("replaycase=<<{}>>", unsafe { &*(p as *const SplitCase) }.text())
+    }
+    vcore::crash::with_inflight(c, fmt, || split_case_inner(c))
+}
+
+fn split_case_inner(c: &SplitCase) -> Result<bool, String> {
     slab::select(0);
     slab::reset(0, SlabCfg::default());
     elem::reset();
@@ -828,6 +835,13 @@ where
 }
 
 fn fail_case(c: &FailCase) -> Result<bool, String> {
+    fn fmt(p: *const ()) -> String {
+        format!("replaycase=<<{}>>", unsafe { &*(p as *const FailCase) }.text())
+    }
+    vcore::crash::with_inflight(c, fmt, || fail_case_inner(c))
+}
+
+fn fail_case_inner(c: &FailCase) -> Result<bool, String> {
     slab::select(0);
     slab::reset(0, SlabCfg::default());
     elem::reset();
